@@ -227,6 +227,24 @@ def check_glob(ctx, tr, rng, k, j, mon, toks=None, fn=None):
                 break
             ctx.disagree('with FOLLOW / `***` the result differs from following symlinked directories', dict(wit, missing=miss, extra=extra), fid)
             return
+        # (4b) and globmatch(REALPATH) applies the same rule: what the walk reached through a link is accepted
+        for q in sorted(x for x in must & got if symlink_positions(root, x))[:40]:
+            try:
+                m = G.globmatch(q, text, flags=flags | G.REALPATH, root_dir=root)
+            except Exception as e:  # noqa: BLE001
+                m = f'raised {type(e).__name__}'
+            ctx.evals()
+            ctx.count('follow_mode_realpath_checks')
+            if m is not True:
+                cwd = os.getcwd()
+                os.chdir(root)
+                try:
+                    fa = first_assignment_shape(toks, fn, q, implicit='MATCHBASE' in fn and not R.has_sep(toks))
+                finally:
+                    os.chdir(cwd)
+                ctx.disagree('with FOLLOW / `***` globmatch(REALPATH) rejects a path that the walk reaches through a symlinked directory',
+                             dict(wit, candidate=q, observed=m), 'KF-REALPATH-FIRST-ASSIGNMENT' if fa else None)
+                break
     # (6a) a copy of a compiled REALPATH matcher (pickle, deepcopy) applies the same rule as the original, FOLLOW or not
     if j % 3 == 0:
         import copy as _copy
@@ -404,6 +422,14 @@ def fixed_scenarios(ctx, mon):
                 idx += 1
                 if ctx.mine(idx):
                     todo.append((segs, fn))
+        # one-segment patterns behind MATCHBASE's implicit prefix (a `***` exactly under GLOBSTARLONG|FOLLOW, an ordinary `**` otherwise);
+        # a pattern that is itself a recursive segment merges with the prefix
+        for segs in ([GS], [GL_], [lit('z')], [(('star',),)], [lit('m')], [lit('lnk')], [(('q',),)]):
+            for fn in (('MATCHBASE', 'GLOBSTARLONG', 'FOLLOW'), ('MATCHBASE',), ('MATCHBASE', 'FOLLOW'), ('MATCHBASE', 'GLOBSTARLONG'),
+                       ('MATCHBASE', 'GLOBSTARLONG', 'FOLLOW', 'DOTGLOB')):
+                idx += 1
+                if ctx.mine(idx):
+                    todo.append((segs, fn))
         if not todo:
             continue
         with T.Tree(spec, 'c06f-') as tr:
@@ -414,10 +440,45 @@ def fixed_scenarios(ctx, mon):
                     ctx.count('fixed_scenario_cases')
 
 
+def implicit_globstar_scenarios(ctx):
+    """The `**` that NEGATEALL supplies to a list of exclusions alone walks exactly like a written `**` (it is not a `***`)."""
+    idx = 0
+    for ti, spec in enumerate(FIXED_TREES):
+        for fn in ((), ('FOLLOW',), ('GLOBSTARLONG',), ('GLOBSTARLONG', 'FOLLOW'), ('DOTGLOB',), ('MARK',), ('NODIR',)):
+            idx += 1
+            if not ctx.mine(idx):
+                continue
+            with T.Tree(spec, 'c06n-') as tr, ctx.case(timeout=30, label=('implicit-globstar', ti, fn)):
+                fl = flags_of(('GLOBSTAR',) + fn)
+                want = sorted(T.norm_result(p) for p in G.glob('**', flags=fl, root_dir=tr.root))
+                for what, call_ in (
+                        ('!x, NEGATE|NEGATEALL', lambda: G.glob('!zz-none*', flags=fl | G.NEGATE | G.NEGATEALL, root_dir=tr.root)),
+                        ('[!x, !y] without GLOBSTAR', lambda: G.glob(['!zz-none*', '!zz-nil'], flags=(fl & ~G.GLOBSTAR) | G.NEGATE | G.NEGATEALL, root_dir=tr.root)),
+                        ('-x, MINUSNEGATE', lambda: G.glob('-zz-none*', flags=fl | G.NEGATE | G.NEGATEALL | G.MINUSNEGATE, root_dir=tr.root)),
+                        ('bytes', lambda: [os.fsdecode(p) for p in G.glob(b'!zz-none*', flags=fl | G.NEGATE | G.NEGATEALL, root_dir=os.fsencode(tr.root))]),
+                        ('iglob', lambda: list(G.iglob(('!zz-none*',), flags=fl | G.NEGATE | G.NEGATEALL, root_dir=tr.root)))):
+                    try:
+                        got = sorted(T.norm_result(p) for p in call_())
+                    except Exception as e:  # noqa: BLE001
+                        got = f'raised {type(e).__name__}'
+                    ctx.evals()
+                    ctx.count('implicit_globstar_walks')
+                    if got != want:
+                        ctx.disagree('the implicit `**` of NEGATEALL does not walk like a written `**`',
+                                     {'tree': spec, 'flags': list(fn), 'call': what, 'written': want[:40],
+                                      'implicit': got if isinstance(got, str) else got[:40],
+                                      'only_implicit': got if isinstance(got, str) else sorted(set(got) - set(want))[:10],
+                                      'only_written': [] if isinstance(got, str) else sorted(set(want) - set(got))[:10]})
+                        break
+                if want:
+                    ctx.mark_nontrivial(('implicit-globstar', ti, fn))
+
+
 def run(ctx):
     quick = ctx.quick
     mon = FSMonitor.get()
     fixed_scenarios(ctx, mon)
+    implicit_globstar_scenarios(ctx)
     k = 0
     limit = 120 if quick else 10 ** 9
     while k < limit and not ctx.out_of_time():
